@@ -173,7 +173,7 @@ def sc_direction(rep: Report, consts: dict, what: str):
     expect_model_ok(m, "Report Algo => Contract")
     rep.model(m, what)
     recs = [r for r in m.records if isinstance(r, dict) and "inp" in r]
-    if len(recs) * 2 != m.distinct:
+    if len(recs) != m.distinct or len({json.dumps(r, sort_keys=True) for r in recs}) != len(recs):
         raise MachineryError(f"Report emitted {len(recs)} cases for {m.distinct} states")
     recs.sort(key=lambda r: json.dumps(r["inp"]))
     tag = consts["Profile"][0]
